@@ -80,6 +80,8 @@ class ReferenceImpl(Derivable, Impl):
     def on_inherit(self, updater, bases):
 
         self.model.clear_obj(self)
+        # Values read through attribute access hang on the reference graph
+        self.model.clear_attr_referrers(self)
         # The nearest definer may have changed
         self.refmode = bases[0].refmode
         if bases[0].has_interface():
